@@ -117,7 +117,7 @@ def translate():
             r"if ctx\.segments\.is_empty\(\) \{ let seg_opts = SegmentOptions \{ initial_pc: options\.pc, target_address: options\.pc, \.\.Default::default\(\) \}; "
             r"ctx\.segments \.insert\(\"default\"\.into\(\), Segment::new\(seg_opts\)\); ctx\.current_segment = Some\(\"default\"\.into\(\)\); \} else \{ "
             r"if !errors\.is_empty\(\) && errors == prev_errors \{ return \(Some\(ctx\), errors\); \} "
-            r"if errors\.is_empty\(\) \{ if (ctx\.undefined\.is_empty\(\)(?: && !symbols_added)?) \{ break; \} else \{ "
+            r"if errors\.is_empty\(\) \{ if (ctx\.undefined\.is_empty\(\) && ctx\.changed\.is_empty\(\)(?: && !symbols_added)?) \{ break; \} else \{ "
             r"if ((?:!ctx\.undefined\.is_empty\(\) && )?ctx\.undefined == prev_undefined) \{ let errors = ctx \.undefined \.iter\(\) "
             r"\.sorted_by_key\(")
     m = need(head, loop_, "pass loop body")
@@ -131,7 +131,7 @@ def translate():
          r"if let Err\(e\) = ctx\.finalize\(\) \{ errors\.extend\(e\); \} \(Some\(ctx\), errors\)$", loop_, "pass loop tail")
     np = norm(between(cg, r"fn next_pass\(&mut self\) \{", r"\n    \}", "next_pass"))
     # (`self.analysis.clear();` concerns the language-server analysis only, which the assembler model does not carry)
-    if np.replace(" self.analysis.clear();", "") != ("self.pass_idx += 1; self.next_macro_scope_id = 0; self.segments.values_mut().for_each(|s| s.reset()); "
+    if np.replace(" self.analysis.clear();", "") != ("self.pass_idx += 1; self.next_macro_scope_id = 0; self.changed.clear(); self.segments.values_mut().for_each(|s| s.reset()); "
               "self.test_elements.clear(); self.source_map.clear();"):
         raise ShapeError("next_pass changed: %s" % np)
     ap = norm(between(cg, r"fn register_all_segment_symbols\(&mut self\) -> CoreResult<\(\)> \{", r"\n    \}", "register_all_segment_symbols"))
@@ -149,7 +149,10 @@ def translate():
          r"None => \{ self\.symbols\.update_data\(symbol_nx, symbol\); maybe_require_new_pass = true; \}", a, "add_symbol: changed value")
     need(r"None => \{ let \(parent, id\) = path\.clone\(\)\.split\(\); let parent_nx = self\.symbols\.ensure_index\(self\.symbols\.root, &parent\); "
          r"let nx = self\.symbols\.insert\(parent_nx, id, symbol\); nx \}", a, "add_symbol: insertion")
-    need(r"if maybe_require_new_pass && ty != SymbolType::Variable \{ self\.undefined\.insert\(UndefinedSymbol \{ "
+    # changed symbols go to a set of their own (0b9c159): they force another pass but are never reported as unknown identifiers
+    if re.search(r"self\.undefined\.insert", a):
+        raise ShapeError("add_symbol inserts into the undefined set")
+    need(r"if maybe_require_new_pass && ty != SymbolType::Variable \{ self\.changed\.insert\(UndefinedSymbol \{ "
          r"scope_nx: self\.current_scope_nx, id, span, \}\); \}", a, "add_symbol: flagging")
     need(r"let symbol_nx = self\.symbols\.try_index\(self\.current_scope_nx, &id\);", a, "add_symbol: lookup")
 
@@ -181,7 +184,12 @@ def translate():
     if "remove_symbol" in cg or "symbols.remove" in cg:
         raise ShapeError("codegen removes symbols again (the model has no removal)")
     mi = norm(between(cg, r"Token::MacroInvocation \{ id: name, args, \.\. \} => \{", r"Token::ProgramCounterDefinition \{", "macro invocation arm"))
-    need(r"let macro_scope = Identifier::new\(format!\(\"\$macro_\{\}\", self\.next_macro_scope_id\)\); self\.next_macro_scope_id \+= 1; "
+    # e323987: the counter advances for every invocation, before the macro is looked up
+    need(r"^let macro_scope_id = self\.next_macro_scope_id; self\.next_macro_scope_id \+= 1; let def = self \.get_evaluator\(\)", mi,
+         "macro invocation arm (scope number taken before the lookup)")
+    if mi.count("next_macro_scope_id") != 2:
+        raise ShapeError("macro invocation arm: the scope counter is touched more than once")
+    need(r"let macro_scope = Identifier::new\(format!\(\"\$macro_\{\}\", macro_scope_id\)\); "
          r"let mut values = vec!\[\]; for \(expr, _\) in args\.iter\(\) \{ values\.push\( self\.evaluate_expression\(expr, true\)\? "
          r"\.unwrap_or\(SymbolData::Placeholder\), \); \} "
          r"self\.with_scope\(&macro_scope, None, \|s\| \{ for \(arg_name, value\) in def\.args\.iter\(\)\.zip\(values\) \{ "
@@ -198,7 +206,11 @@ def translate():
     need(r"DataSize::Byte => vec!\[value as u8\], DataSize::Word => \(value as u16\)\.to_le_bytes\(\)\.to_vec\(\), "
          r"DataSize::Dword => \(value as u32\)\.to_le_bytes\(\)\.to_vec\(\),", da, "data arm")
     pcd = norm(between(cg, r"Token::ProgramCounterDefinition \{ value, \.\. \} => \{", r"Token::Segment \{", "pc arm"))
-    need(r"^if let Some\(pc\) = self\.evaluate_expression_as_i64\(value, true\)\? \{ if let Some\(seg\) = self\.try_current_segment_mut\(\) \{ "
+    # C06 (program counter range fix): optional range check of the value and of the relocated address before set_pc
+    need(r"^if let Some\(pc\) = self\.evaluate_expression_as_i64\(value, true\)\? \{ "
+         r"(?:if !\(0\.\.=0x10000\)\.contains\(&pc\) \{ return Err\(Diagnostic::error\(\)[^;]*; \} )?"
+         r"if let Some\(seg\) = self\.try_current_segment_mut\(\) \{ "
+         r"(?:if pc \+ seg\.target_offset\(\) < 0 \{ return Err\(Diagnostic::error\(\)[^;]*; \} )?"
          r"seg\.set_pc\(pc\); \} \} \}$", pcd, "pc arm")
     iff = norm(between(cg, r"Token::If \{\s*value, if_, else_, \.\.\s*\} => \{", r"Token::Import \{", "if arm"))
     need(r"^if let Some\(value\) = self\.evaluate_expression_as_i64\(value, true\)\? \{ let emit_if = value != 0; "
